@@ -7,7 +7,7 @@ set -u
 export GOFLAGS=-mod=mod GOPROXY=off GOSUMDB=off GOTOOLCHAIN=local
 PROP=$1; PATCH=$2; DEMO=$3; DEMONAME=$4; shift 4
 CHECKS=${*:-$PROP}
-WT=/tmp/scratch/cur
+WT=${WT:-/tmp/scratch/cur}
 cd $WT || exit 2
 git checkout -q --detach "$(git -C /repo rev-parse HEAD)" && git checkout -q -- . && git clean -fdq
 echo "== demo on the clean tree (must pass)"
@@ -25,7 +25,7 @@ go test -mod=mod -vet=off -count=1 -tags verif -run "^${DEMONAME}\$" . 2>&1 | ta
 rm -f $WT/zz_seed_demo_test.go
 for c in $CHECKS; do
   echo "== check $c quick against the change"
-  (cd ${SNAP:-/verif} && VERIF_ROOT=${SNAP:-/verif} VERIF_WORK=${SNAP:-/verif}/work/alt VERIF_REPO=$WT ${CHECKBIN:-bin/check} $c quick > /tmp/scratch/seed_$c.log 2>&1; echo "exit=$?"; grep -c '^VIOLATION' /tmp/scratch/seed_$c.log; grep -A3 'failure (shard' /tmp/scratch/seed_$c.log | cut -c1-500 | head -8; tail -1 /tmp/scratch/seed_$c.log | cut -c1-200)
+  (cd ${SNAP:-/verif} && VERIF_ROOT=${SNAP:-/verif} VERIF_WORK=${SNAP:-/verif}/work/alt VERIF_REPO=$WT ${CHECKBIN:-bin/check} $c quick > ${LOGDIR:-/tmp/scratch}/seed_$c.log 2>&1; echo "exit=$?"; grep -c '^VIOLATION' ${LOGDIR:-/tmp/scratch}/seed_$c.log; grep -A3 'failure (shard' ${LOGDIR:-/tmp/scratch}/seed_$c.log | cut -c1-500 | head -8; tail -1 ${LOGDIR:-/tmp/scratch}/seed_$c.log | cut -c1-200)
 done
 cd $WT && git checkout -q -- . && git clean -fdq
 rm -rf ${SNAP:-/verif}/replays/found
